@@ -34,6 +34,7 @@ import Driver.Gsm
 import Driver.GeomFix
 import Driver.FdWorld
 import Driver.Alac
+import Driver.AlacCore
 open Sf
 
 def lawOf (s : String) : Option G711.Law :=
@@ -113,4 +114,5 @@ def main (args : List String) : IO UInt32 := do
   | "geomfix" :: rest => Driver.GeomFix.cmd rest
   | "fdworld" :: _ => FdWorldDriver.cmd
   | "alac" :: rest => Driver.Alac.cmd rest
+  | "alaccore" :: rest => Driver.AlacCore.cmd rest
   | _ => IO.eprintln "usage: sfmodel <g711|...> ..."; return 2
